@@ -490,18 +490,22 @@ Section WithEnv.
 
   (** * Cli *)
 
-  Record cliapp := mkApp {
+  Record cliapp := mkAppAt {
     a_root : cmd;
-    a_version : option (str * str)      (* Version(name, version) *)
+    a_version : option (str * str);     (* Version(name, version) *)
+    a_version_last : bool               (* Version called after the other declarations of the app *)
   }.
+  Definition mkApp (r : cmd) (v : option (str * str)) : cliapp := mkAppAt r v false.
 
   Definition version_decl (name : str) : decl :=
     mkDecl true KBool name (lit "Show the version and exit") [] true (VBool false) false.
 
-  (** the root's declarations: Version is declared first *)
+  (** the root's declarations: the version flag is an ordinary option declared where Version is called,
+      before or after the other declarations *)
   Definition root_decls (a : cliapp) : list decl :=
     match a_version a with
-    | Some (n, _) => version_decl n :: c_decls (a_root a)
+    | Some (n, _) => if a_version_last a then c_decls (a_root a) ++ [version_decl n]
+                     else version_decl n :: c_decls (a_root a)
     | None => c_decls (a_root a)
     end.
 
